@@ -29,9 +29,12 @@ def dict_to_path(as_dict):
     entities = [None] * len(as_dict["entities"])
     # run constructor for dict kwargs
     for entity_index, entity in enumerate(as_dict["entities"]):
-        entities[entity_index] = loaders[entity["type"]](
-            points=entity["points"], closed=entity["closed"]
-        )
+        kwargs = {"points": entity["points"]}
+        if entity["type"] == "Arc":
+            # an Arc stores whether it is a full circle, for a Line
+            # `closed` is derived from the points and can't be assigned
+            kwargs["closed"] = entity["closed"]
+        entities[entity_index] = loaders[entity["type"]](**kwargs)
     result["entities"] = entities
 
     return result
